@@ -62,3 +62,18 @@ package caching
 //@   modifies auto
 //@   at return 0
 //@     before[clears_the_underlying_set] dominatedBy(Clear, 1) && argOf(Clear, 1, 0) == os.Set
+
+// What identifies a cached sample: a 256-bit blake2b hash keyed with the namespace over the WHOLE sample. (Collision
+// freedom of that hash is the assumption under which "contained" means "this very sample was added".)
+//@ func (*Set).newKey
+//@   property C05 C13 C01
+//@   modifies auto
+//@   maypanic
+//@   at New 1
+//@     before[keyed_with_the_namespace_and_256_bits_wide] arg(0) == 32 && arg(1) == namespace
+//@   at Write 1
+//@     before[the_whole_sample_is_hashed] arg(0) == v && recv() == res(New, 1, 0) && res(New, 1, 1) == nil
+//@   at Sum 1
+//@     before[the_key_is_the_digest_of_that_hasher] recv() == res(New, 1, 0) && res(Write, 1, 1) == nil
+//@   at return 3
+//@     before[the_digest_is_returned_as_the_key] arg(1) == nil && dominatedBy(Sum, 1)
